@@ -400,6 +400,26 @@ theorem commit_requests_on_the_wire :
       KV.Spec.GroupWire.Req.offsetFetch t.GroupID (t.Topics.map fun x => (x.Topic, x.Partitions))) :=
   ⟨KV.GroupReq.offsetCommit_layout, KV.GroupReq.offsetFetch_layout⟩
 
+/-- A refusal ANYWHERE in the answer is the call's conclusion: the per-partition codes of all topics, in the order of the
+answer, with zeros before the first refusal `c ≠ 0` — the conclusion is `c`, whichever topic it belongs to (so a commit
+that covers two topics is not believed when the second topic's entry is refused). -/
+theorem refusal_anywhere_is_reported (pre post : List Int) (c : Int) (hpre : ∀ x ∈ pre, x = 0) (hc : c ≠ 0) :
+    KV.Spec.GroupWire.firstError (pre ++ c :: post) = c ∧ KV.Spec.GroupWire.firstError pre = 0 := by
+  unfold KV.Spec.GroupWire.firstError
+  induction pre with
+  | nil => simp [List.find?, hc]
+  | cons a t ih =>
+    have ha : a = 0 := hpre a (by simp)
+    have ht : ∀ x ∈ t, x = 0 := fun x hx => hpre x (by simp [hx])
+    subst ha
+    simpa [List.find?] using ih ht
+
+/-- regenerated (conn.go): the loops of `Conn.offsetCommit` / `Conn.offsetFetch` that look for a per-partition code run
+over every topic and partition of the answer — inside them the only `return` is the one guarded by `ErrorCode != 0` -/
+theorem answer_checked_for_every_topic :
+    KV.Gen.Group.connAnswerLoops.all (fun x => x.2.2 == 0 && decide (0 < x.2.1)) = true ∧
+    KV.Gen.Group.connAnswerLoops.map (·.1) = ["offsetCommit", "offsetFetch"] := by decide
+
 end Wire
 
 /-! ## the per-generation unsubscribe function of Reader.run (D8b) -/
